@@ -198,8 +198,8 @@ class SimSocket(_RealSocket):
             raise OSError(errno.EINVAL, 'Invalid argument')
         o.listening = True
         o.backlog_max = max(1, backlog)
-        o.label = 'listener:%s' % (o.addr,)
-        w.ev(w.ename(), 'listen', str(o.addr))
+        o.label = 'listener:%s' % (_os.path.basename(o.addr) if isinstance(o.addr, str) else o.addr,)
+        w.ev(w.ename(), 'listen', o.label)
 
     def accept(self) -> Tuple['SimSocket', Any]:
         w = _w()
